@@ -1,7 +1,8 @@
 (* Pins: full statements of the C20 theorems; a weakened theorem no longer type-checks here.
    Generated once by tools/mkpins.py from Props/C20.v and then committed: edit both or neither. *)
 From SV Require Import Lib.Base Gen.Consts Gen.WireFields Model.WireBase Model.WireSixFrag Model.WireNhc.
-From SV Require Import Proofs.WireBaseProofs Proofs.LowpanWireProofs.
+From SV Require Import Model.Assembler Model.LowpanFrag.
+From SV Require Import Proofs.WireBaseProofs Proofs.AssemblerProofs Proofs.LowpanWireProofs Proofs.LowpanFragProofs.
 From SV Require Import Props.C20.
 
 Check (C20_frag_hdr_roundtrip : forall r b,
@@ -55,3 +56,65 @@ Check (C20_nhc_udp_parse_no_panic : forall b src dst rx, blen b < 65528 ->
   (nhc_udp_check_len b = Ok tt ->
      nhc_udp_src_port b <> Panic /\ nhc_udp_dst_port b <> Panic /\ nhc_udp_checksum b <> Panic /\
      nhc_udp_payload b <> Panic /\ nhc_udp_dispatch_field b <> Panic)).
+
+Check (C20_frag_send_structure : forall ieee_len c chdr uhdr payload_length tag frames,
+  5 <= ieee_len <= 21 -> 0 <= chdr <= uhdr -> lpf_needs_frag (blen c) ieee_len = true ->
+  blen c <= lpf_BUFFER -> blen c + (uhdr - chdr) < 2048 ->
+  lpf_send ieee_len c chdr uhdr payload_length tag = Ok frames ->
+  let hd := uhdr - chdr in
+  exists f1 fs, frames = f1 :: fs /\
+    fr_hdr f1 = Some (SfFirst ((payload_length + lpf_IPV6_HDR) mod 65536) tag) /\
+    fr_payload f1 = firstn (Z.to_nat (blen (fr_payload f1))) c /\
+    0 < blen (fr_payload f1) < blen c /\ (blen (fr_payload f1) + hd) mod 8 = 0 /\
+    (forall f, In f fs -> exists p n,
+        fr_hdr f = Some (SfNext ((payload_length + lpf_IPV6_HDR) mod 65536) tag ((p + hd) / 8)) /\
+        (p + hd) / 8 * 8 = p + hd /\ 0 <= (p + hd) / 8 < 256 /\ blen (fr_payload f1) <= p /\
+        0 < n <= lpf_fn ieee_len /\ p + n <= blen c /\ (p + n < blen c -> n = lpf_fn ieee_len) /\
+        fr_payload f = firstn (Z.to_nat n) (skipn (Z.to_nat p) c)) /\
+    lpf_fn ieee_len mod 8 = 0 /\
+    concat (map fr_payload frames) = c /\
+    Forall (fun f => lpf_frame_len ieee_len f <= lpf_MAX_FRAME) frames).
+
+Check (C20_unfragmented_frame_fits : forall ieee_len c chdr uhdr payload_length tag,
+  lpf_needs_frag (blen c) ieee_len = false ->
+  lpf_send ieee_len c chdr uhdr payload_length tag = Ok [mkFrame None c] /\
+  lpf_frame_len ieee_len (mkFrame None c) <= lpf_MAX_FRAME).
+
+Check (C20_frag_offsets_consistent : forall ieee_len c D chdr uhdr payload_length tag dec1,
+  5 <= ieee_len <= 21 -> 0 <= chdr <= uhdr -> lpf_needs_frag (blen c) ieee_len = true ->
+  blen c <= lpf_BUFFER -> blen c + (uhdr - chdr) < 2048 ->
+  skipn (Z.to_nat chdr) c = skipn (Z.to_nat uhdr) D -> chdr <= blen c -> uhdr <= blen D ->
+  payload_length + lpf_IPV6_HDR = blen D ->
+  chdr <= lpf_f1 ieee_len (uhdr - chdr) ->
+  (forall n, blen D <= n ->
+     dec1 n = Ok (firstn (Z.to_nat (lpf_f1 ieee_len (uhdr - chdr) + (uhdr - chdr))) D)) ->
+  forall frames, lpf_send ieee_len c chdr uhdr payload_length tag = Ok frames ->
+  forall fr, In fr frames -> exists rf, lpf_rx_of_frame dec1 fr = Some rf /\ piece_ok D tag rf).
+
+Check (C20_reassembly_exact_or_nothing : forall D tag now timeout ll_src ll_dst fs ss,
+  lpf_IPV6_HDR <= blen D ->
+  Forall (slot_inv D (ll_src, ll_dst, blen D, tag)) ss -> Forall (piece_ok D tag) fs ->
+  exists ss' ds, lpf_process_all now timeout ll_src ll_dst fs ss = Ok (ss', ds) /\
+                 Forall (slot_inv D (ll_src, ll_dst, blen D, tag)) ss' /\ Forall (fun d => d = D) ds).
+
+Check (C20_fresh_slots_satisfy_invariant : forall D k, Forall (slot_inv D k) lpf_slots_new).
+
+Check (C20_lowpan_fragments_reassemble :
+  forall ieee_len c D chdr uhdr payload_length tag dec1,
+  5 <= ieee_len <= 21 -> 0 <= chdr <= uhdr -> lpf_needs_frag (blen c) ieee_len = true ->
+  blen c <= lpf_BUFFER -> blen c + (uhdr - chdr) < 2048 ->
+  skipn (Z.to_nat chdr) c = skipn (Z.to_nat uhdr) D -> chdr <= blen c -> uhdr <= blen D ->
+  payload_length + lpf_IPV6_HDR = blen D ->
+  chdr <= lpf_f1 ieee_len (uhdr - chdr) ->
+  (forall n, blen D <= n ->
+     dec1 n = Ok (firstn (Z.to_nat (lpf_f1 ieee_len (uhdr - chdr) + (uhdr - chdr))) D)) ->
+  forall frames arrivals rfs now timeout ll_src ll_dst ss,
+    lpf_send ieee_len c chdr uhdr payload_length tag = Ok frames ->
+    incl arrivals frames ->
+    map (lpf_rx_of_frame dec1) arrivals = map Some rfs ->
+    lpf_IPV6_HDR <= blen D ->
+    Forall (slot_inv D (ll_src, ll_dst, blen D, tag)) ss ->
+    exists ss' ds, lpf_process_all now timeout ll_src ll_dst rfs ss = Ok (ss', ds) /\
+                   Forall (slot_inv D (ll_src, ll_dst, blen D, tag)) ss' /\ Forall (fun d => d = D) ds).
+
+Check (C20_configured_sizes : lpf_BUFFER + 48 < 2048 /\ 1 <= lpf_N /\ 1 <= lpf_SLOTS).
